@@ -291,6 +291,7 @@ func (w *World) submit(op *Op) *Op {
 		op.Label = "pcheck" // periodic check executed synchronously by the watch loop
 	}
 	op.InStop = inStop
+	op.gid = curGID()
 	op.TIssue = w.now()
 	key := op.Inst + "." + op.Label + "." + op.Kind
 	w.opCount[key]++
@@ -465,4 +466,19 @@ func (w *World) pcheckBusy(inst string) bool {
 		}
 	}
 	return false
+}
+
+// curGID returns the id of the calling goroutine (used to group the ops of one
+// acquisition round).
+func curGID() int {
+	var buf [64]byte
+	n := runtime.Stack(buf[:], false)
+	id := 0
+	for _, ch := range buf[len("goroutine "):n] {
+		if ch < '0' || ch > '9' {
+			break
+		}
+		id = id*10 + int(ch-'0')
+	}
+	return id
 }
